@@ -95,6 +95,7 @@ def C02(ctx):
     if ctx.quick:
         more = ctx.sample(more, 500)
     more += ctx.export('FamilyX(p, {"multi-name-var-sets", "arg-returned-through-bind", "arg-returned-directly", "two-files-ok", "star-foreign-tag-ok"})')
+    ctx.design_inject(cases + more, maxcalls=2, label='families G R B S M X ')
     ctx.run(only_success(more), nontrivial=nt, runtime=True, switches=W_ONLY)
     if not ctx.quick:
         big = [c for c in ctx.export(G(4), pre_sample=30000) if verdict(c) == 'yes']
@@ -124,7 +125,8 @@ def C03(ctx):
     ctx.run(big, nontrivial=nt, runtime=True, switches=E_C)
     ctx.rules.append('family T: the result type is a named type / an alias of each of 20 Go type kinds (zero value on the error path per kind), variadic injector; '
                      'chains of 12 (quick) / 12 and 25 (thorough) cleanup+error providers (more than ten generated cleanup names) failing at the first, middle and last provider')
-    extra = ctx.export('FamilyT(p)') + ctx.export('FamilyChain(p, {12})' if ctx.quick else 'FamilyChain(p, {11, 12, 25})')
+    extra = ctx.export('FamilyT(p)') + ctx.export('FamilyChain(p, {12})' if ctx.quick else 'FamilyChain(p, {11, 12, 25})') \
+        + ctx.export('FamilyX(p, {"variadic-err-provider"})')
     ctx.res.cov['fault_points'] += sum(n_fault_points(c) for c in extra)
     ctx.run(extra, nontrivial=lambda c: True, runtime=True, switches=E_C)
     if not ctx.quick:
@@ -311,7 +313,7 @@ def C19(ctx):
                      'wire show on the programs with named sets of families G, K, U, M compared with WireShow (included sets, outputs grouped by their external inputs, injector list); '
                      'command histories of WireCli with CkCheck; non-trivial = rejected programs (check must fail too) and sets with at least two output groups')
     nt = lambda c: verdict(c) == 'no' or any(len(s['groups']) >= 2 for s in (c.get('show') or {}).get('sets', []))
-    fams = [(G(3), 500), ('FamilyK(p, KTypes)', 250), ('FamilyQ(p, 3)', 472), ('FamilyB(p)', 250), ('FamilyU(p)', 100)]
+    fams = [(G(3), 500), ('FamilyK(p, KTypes)', 250), ('FamilyQ(p, 3)', 472), ('FamilyB(p)', 250), ('FamilyU(p)', 100), ('FamilyGSplit(p, 3)', 400)]
     for expr, k in fams:
         cases = ctx.export(expr, extends='WireShow', caseop='CaseShow', pre_sample=(k if ctx.quick else None))
         ctx.run(cases, nontrivial=nt, runtime=False, check=True, show=True)
